@@ -259,9 +259,10 @@ class QuickSampler:
         Stores all current parameters used with the sampler in a list and
         returns this.
         """
-        # Store circuit unitary and input state
+        # Store circuit unitary, number of modes and input state
         return [
             self.__circuit.U_full,
+            self.__circuit.n_modes,
             self.__circuit.heralds,
             self.input_state,
             self.post_select,
